@@ -1387,3 +1387,79 @@ func (w *World) recordEscapes(v ssa.Value, depth int, seen map[ssa.Value]bool) b
 	}
 	return false
 }
+
+// boundCall: a method value handed to a helper that calls it - `h(x.M, a)` with `func h(op func(T) R, a T) { op(a) }`
+// is the call x.M(a). Args are the dynamic call's arguments with the helper's parameters replaced by the arguments of
+// the call that handed the method value over.
+type boundCall struct {
+	Method string
+	Recv   ssa.Value
+	Site   *ssa.Call
+	Dyn    *ssa.Call
+	Args   []ssa.Value
+}
+
+// boundCalls: the calls of method values made in Tree(root) through helpers that receive them as parameters and do
+// nothing with such a parameter but call it.
+func (w *World) boundCalls(root *ssa.Function) []boundCall {
+	var out []boundCall
+	for _, fn := range w.Tree(root) {
+		for _, call := range callsIn(fn) {
+			site, ok := call.(*ssa.Call)
+			if !ok {
+				continue
+			}
+			h := site.Call.StaticCallee()
+			if h == nil || !w.InRepo(h) || h.Blocks == nil || len(site.Call.Args) != len(h.Params) {
+				continue
+			}
+			for i, a := range site.Call.Args {
+				mc, isMC := throughCell(strip(a)).(*ssa.MakeClosure)
+				if !isMC || len(mc.Bindings) != 1 {
+					continue
+				}
+				bw, _ := mc.Fn.(*ssa.Function)
+				if bw == nil || !strings.HasPrefix(bw.Synthetic, "bound method wrapper") {
+					continue
+				}
+				p := h.Params[i]
+				refs := p.Referrers()
+				if refs == nil {
+					continue
+				}
+				var dyns []*ssa.Call
+				onlyCalled := true
+				for _, r := range *refs {
+					switch x := r.(type) {
+					case *ssa.DebugRef:
+					case *ssa.Call:
+						if x.Call.Value == ssa.Value(p) && !x.Call.IsInvoke() {
+							dyns = append(dyns, x)
+						} else {
+							onlyCalled = false
+						}
+					default:
+						onlyCalled = false
+					}
+				}
+				if !onlyCalled {
+					continue
+				}
+				for _, d := range dyns {
+					bc := boundCall{Method: strings.TrimSuffix(bw.Name(), "$bound"), Recv: mc.Bindings[0], Site: site, Dyn: d}
+					for _, da := range d.Call.Args {
+						v := throughCell(strip(da))
+						if hp, isParam := v.(*ssa.Parameter); isParam && hp.Parent() == h {
+							if j := paramIndex(hp); j >= 0 && j < len(site.Call.Args) {
+								v = site.Call.Args[j]
+							}
+						}
+						bc.Args = append(bc.Args, v)
+					}
+					out = append(out, bc)
+				}
+			}
+		}
+	}
+	return out
+}
